@@ -9,8 +9,8 @@
     `toPairs` on a list pairs every index with the stored item unchanged (used by (3), C14Routes2.lean).
 
   Each with the call that follows (`callBindings … s …` where `s` is the `src` the item was STORED with: `this := t`
-  for `s = some t`, no `this` binding for `s = none`).  The `for` route, the composed statements and the
-  whole-program examples are in C14Routes2.lean.
+  for `s = some t`, no `this` binding for `s = none`).  The `for` route (3) is in C14Routes2.lean, the composed statements
+  (5) and the whole-program examples in C14Routes3.lean.
 -/
 import SeedProofs.Lemmas.C14This
 import SeedProofs.Lemmas.C14ThisPat
@@ -286,7 +286,13 @@ theorem spread_args_eq_index_args {σ : State} {sc : List Addr} {x : List Char} 
     simpa using spread_last [] hvar hvx hax
   · simpa using indexArgs_eval l hx hvx hax xs.length 0 d (by omega) []
 
-example : scopeGet σr [0] c!"queue" = some (SVal.plain (.list 3)) := by rfl
+/-- `f(queue..)` and `f(queue[0], queue[1])` get the same two argument values: the first with source `a`, the second
+    with none -/
+example :
+    evalListItems 3 σr [0] [.mk (.mk (.Var c!"queue") (8, 2)) true] [] =
+      .ok [⟨.func 1, some (.obj 2)⟩, ⟨.func 1, none⟩] σr ∧
+    evalListItems 7 σr [0] (indexArgs c!"queue" (8, 2) 0 2) [] = .ok [⟨.func 1, some (.obj 2)⟩, ⟨.func 1, none⟩] σr :=
+  spread_args_eq_index_args (vx := SVal.plain (.list 3)) (8, 2) 0 (by rfl) rfl σr_list
 
 /-- **`f(e..)`** (a single spread argument): the callee gets the stored items as its argument values, so a parameter
     bound to item `j` holds the `SVal` item `j` was stored as.  Stated for the call as a whole: with `e` a list of
@@ -338,6 +344,21 @@ theorem slice_keeps_item_src {n : Nat} {σ σ1 σ2 σ3 : State} {sc : List Addr}
   have h := C11.eval_slice loc hA hB hra hrb he hxs
   refine ⟨by rw [h.1, if_pos hin], (h.2.2 _).1, fun j hj => slice_item xs _ _ j hj⟩
 
+theorem eInt_eval (n : Nat) (σ : State) (sc : List Addr) (k : Int) :
+    evalExpr (n + 1) σ sc (eInt k) = .ok ⟨.int k, none⟩ σ := by rw [eInt, evalExpr]; rfl
+
+/-- `queue[0:1]` is a new cell 6 holding the first stored item, source `a` included; `queue[1:]` one holding the second,
+    which has none -/
+example :
+    evalExpr 7 σr [0] (.mk (.RangeIndex eQ (some (eInt 0)) (some (eInt 1))) (8, 3)) =
+      .ok (SVal.plain (.list 6)) (σr.alloc (.list [⟨.func 1, some (.obj 2)⟩])).2 ∧
+    evalExpr 7 σr [0] (.mk (.RangeIndex eQ (some (eInt 1)) none) (8, 3)) =
+      .ok (SVal.plain (.list 6)) (σr.alloc (.list [⟨.func 1, none⟩])).2 :=
+  ⟨(slice_keeps_item_src (n := 3) (s := none) (8, 3) (.given (eInt_eval 2 σr [0] 0)) (.given (eInt_eval 2 σr [0] 1))
+      (by decide) (by decide) (σr_q 2) σr_list (by decide)).1,
+   (slice_keeps_item_src (n := 3) (s := none) (8, 3) (.given (eInt_eval 2 σr [0] 1)) (.omitted σr)
+      (by decide) (by decide) (σr_q 2) σr_list (by decide)).1⟩
+
 /-! ## `toPairs` on a list -/
 
 /-- the pairs a `for` loop walks for a list: `(i, stored item i)` — the item is the stored `SVal` -/
@@ -378,6 +399,10 @@ theorem toPairs_list_keeps_items {σ : State} {a : Addr} {items : List SVal} (h 
   intro j
   rw [List.getElem?_map, hget]
   cases items[j]? <;> rfl
+
+example : toPairs σr (.list 3) =
+    some (some [(SVal.plain (.int 0), ⟨.func 1, some (.obj 2)⟩), (SVal.plain (.int 1), ⟨.func 1, none⟩)]) :=
+  (toPairs_list_keeps_items σr_list).1
 
 theorem listPairs_cons (x : SVal) (xs : List SVal) :
     ∃ r, listPairs (x :: xs) = (SVal.plain (.int 0), x) :: r ∧ r.map Prod.snd = xs := by
